@@ -4,6 +4,8 @@ from contracts import notification as _n   # noqa: F401
 
 NS = ["Notification", "Interrupt.parked_or_scheduled"]
 DEAD_NEW = "forall_new(Interrupt, lambda i: i.sub is None and (i._revoked or not i.scheduled))"
+default_scope(NS + ["Condition", "Flag", "InverseFlag"])
+
 
 model("Condition", module="usim._primitives.condition", fields={})
 model("Flag", module="usim._primitives.flag",
@@ -22,7 +24,7 @@ contract("usim._primitives.condition.Condition.__await__",
          loop_invariants={"while#1": ["loop.activity is me"]},
          props=["C08", "C20", "C03"])
 
-contract("usim._primitives.condition.Condition.__subscribe__",
+contract("usim._primitives.condition.Condition.__subscribe__", allocates=False,
          params={"self": REF("Condition"), "waiter": ANY, "interrupt": REF("Interrupt")}, inv_scope=NS,
          requires=["interrupt.sub is None", "not interrupt.scheduled", "not interrupt._revoked", "waiter is not None"],
          # a waiter may only be parked on a date whose trigger is queued (After.__subscribe__ sees to it before super())
